@@ -60,6 +60,11 @@ structure TableDef where
   value kept as given, falsy ones included (`sqlite_with_rowid=False`, `mysql_engine=''`, `info={}`).
   `CreateTableOp.from_table` / `DropTableOp.from_table` / `to_table` pass them through unchanged. -/
   extra : String
+  /-- the indexes `to_table()` derives from `Column(index=True)` flags (opaque canonical strings).
+  `impl.create_table` emits a CREATE INDEX for each; a `CreateTableOp` built by `from_table` has none:
+  it carries `list(table.c) + list(table.constraints)` with `_constraints_included=True`, which makes
+  `schemaobj.table()` clear the `unique` / `index` flags of the copied columns. -/
+  ixs : List String
   deriving DecidableEq, Repr, Inhabited
 
 /-- `False` (not given) / `None` / a value: `server_default`, `modify_comment` -/
@@ -146,14 +151,15 @@ mutual
 def Op.reverse : Op → Option Op
   | .createTable t _ =>
     -- DropTableOp.from_table(self.to_table())
-    some (.dropTable t.name t.schema none t.comment t.extra (some t))
+    -- (`_reverse = CreateTableOp.from_table(table)`: columns and constraints, no indexes)
+    some (.dropTable t.name t.schema none t.comment t.extra (some { t with ixs := [] }))
   | .dropTable name schema _ comment extra rev =>
     -- CreateTableOp.from_table(self.to_table())
     some (.createTable
       { name := name, schema := schema
         cols := match rev with | some r => r.cols | none => []
         cons := match rev with | some r => r.cons | none => []
-        comment := comment, extra := extra } none)
+        comment := comment, extra := extra, ixs := [] } none)
   | .addColumn table schema col _ =>
     some (.dropColumn table schema col.name [] (some col))
   | .dropColumn table schema _ _ rev =>
